@@ -249,9 +249,10 @@ def gen_cases(ctx):
     # description of a service data flow): every translation must come out as the first one did
     for k in range(60 * scale):
         r = gen_rule(rnd, rnd.randrange(10 ** 6))
-        sx = render(r, gen_spacing(rnd, plain=True)).hex()
+        spx = gen_spacing(rnd, plain=True)
+        sx = render(r, spx).hex()
         for sw in (True, False, True, False, False, True):
-            cases.append({"kind": "repeat", "s": sx, "swap": sw})
+            cases.append({"kind": "repeat", "s": sx, "swap": sw, "rule": r, "sp": spx})
     return cases
 
 
